@@ -42,6 +42,11 @@ var _ = Service("svc", func() {
 		Result(Outer)
 		HTTP(func() { GET("/dyn") })
 	})
+	// collection built with a DSL that neither defines nor selects a view
+	Method("coll", func() {
+		Result(CollectionOf(Outer, func() { Description("all of them") }))
+		HTTP(func() { GET("/coll") })
+	})
 	Method("fixd", func() {
 		Result(Outer, func() { View("default") })
 		HTTP(func() { GET("/fixd") })
